@@ -283,7 +283,37 @@ func sameNameB() (interface{}, J, J) {
 	return []rec{{}, {}}, t, J{"nil": false, "el": []J{el, el}}
 }
 
+// a singly linked list, the one recursive shape: described by its length (SizeOf!"chain")
+type sxNode struct {
+	v    int32
+	next *sxNode
+}
+
+func chainValue(n int) *sxNode {
+	var head *sxNode
+	for i := 0; i < n; i++ {
+		head = &sxNode{int32(i), head}
+	}
+	return head
+}
+
 func execSize(in In, em *Emitter) {
+	if in.has("chain") {
+		n := in.Int("chain")
+		ct := J{"k": "chain", "n": n, "e": J{"k": "int32"}}
+		head := chainValue(n)
+		switch in.S("as") {
+		case "ptr":
+			sizeOne(J{"topnil": false, "chain": n, "as": "ptr", "t": J{"k": "ptr", "e": ct}, "v": J{"nil": false, "to": J{"x": 0}}}, head, em)
+		case "value":
+			sizeOne(J{"topnil": false, "chain": n, "as": "value", "t": ct, "v": J{"x": 0}}, *head, em)
+		default: // inside an interface-typed slice element next to a scalar
+			sizeOne(J{"topnil": false, "chain": n, "as": "nested", "t": J{"k": "slice", "e": J{"k": "iface"}},
+				"v": J{"nil": false, "el": []J{{"nil": false, "dt": J{"k": "ptr", "e": ct}, "dyn": J{"nil": false, "to": J{"x": 0}}},
+					{"nil": false, "dt": J{"k": "int8"}, "dyn": J{"x": 1}}}}}, []interface{}{head, int8(1)}, em)
+		}
+		return
+	}
 	if in.has("static") && in.S("static") == "samename" {
 		// both in one process, one after the other, twice
 		for _, f := range []func() (interface{}, J, J){sameNameA, sameNameB, sameNameA, sameNameB} {
@@ -551,6 +581,68 @@ func genC20(g *Gen) {
 		}
 		sg.ctr++
 		return J{"x": sg.ctr}
+	}
+	// linked lists of 1 .. 100,000 nodes (pointer chains deeper than any fixed recursion budget)
+	for i, n := range []int{1, 2, 4095, 4096, 4097, 5000, 10000, 65537, 100000} {
+		if g.Quick() && n > 10000 {
+			continue
+		}
+		g.Case("size", J{"topnil": false, "chain": n, "as": []string{"ptr", "value", "nested"}[(i+int(g.Seed))%3]})
+		if n == 4097 || n == 5000 {
+			g.Case("size", J{"topnil": false, "chain": n, "as": []string{"ptr", "value", "nested"}[(i+1+int(g.Seed))%3]})
+		}
+	}
+	// long containers (4096 and more) whose elements hold strings, slices and pointers one or two struct / array
+	// levels down, every element of a different size
+	for ci2, n := range []int{4096, 5000, 4095, 8200} {
+		if g.Quick() && ci2 >= 2+int(g.Seed)%2 {
+			continue
+		}
+		str, i16s := J{"k": "string"}, J{"k": "slice", "e": J{"k": "int16"}}
+		ets := []J{
+			{"k": "struct", "f": []J{{"k": "int8"}, {"k": "struct", "f": []J{str, i16s}}}},
+			{"k": "array", "n": 2, "e": J{"k": "struct", "f": []J{{"k": "ptr", "e": J{"k": "int32"}}, str}}},
+			{"k": "struct", "f": []J{{"k": "uint16"}, {"k": "array", "n": 2, "e": str}}},
+		}
+		et := ets[(ci2+int(g.Seed))%3]
+		if !g.Mine() {
+			g.Case("size", nil)
+			continue
+		}
+		var mk func(t J, i int) J
+		mk = func(t J, i int) J {
+			switch t["k"] {
+			case "struct":
+				fs := t["f"].([]J)
+				vs := make([]J, len(fs))
+				for k := range fs {
+					vs[k] = mk(fs[k], i+k)
+				}
+				return J{"f": vs}
+			case "array":
+				el := make([]J, t["n"].(int))
+				for k := range el {
+					el[k] = mk(t["e"].(J), i+3*k)
+				}
+				return J{"el": el}
+			case "string":
+				sg.ctr++
+				return J{"n": (i * 7) % 23, "x": sg.ctr}
+			case "slice":
+				return J{"nil": i%8 == 0, "el": []J{{"x": 1}, {"x": 2}, {"x": 3}}[:i%4]} // (i%8 == 0 implies i%4 == 0: a nil slice has no elements)
+			case "ptr":
+				if i%5 == 0 {
+					return J{"nil": true}
+				}
+				return J{"nil": false, "to": J{"x": i}}
+			}
+			return J{"x": i}
+		}
+		el := make([]J, n)
+		for i := range el {
+			el[i] = mk(et, i)
+		}
+		g.Case("size", J{"topnil": false, "t": J{"k": "slice", "e": et}, "v": J{"nil": false, "el": el}})
 	}
 	ci := 0
 	for _, n := range []int{255, 256, 1023, 1024, 1500, 4096, 65536} {
